@@ -16,13 +16,14 @@ SPEC = {
     "modules": ["HC.Props.C03", "HC.Props.C07"],
     "extracted": ["ConnGuards"],
     "technique": "Lean 4 invariants of an executable timed model of one connection (reader, applications, idle timer, closer tasks; bounded application queues with FIFO blocked putters; programs resumed after a blocked put) proved for every instruction from every invariant state, hence for all operation sequences, schedules, queue capacities and timeouts; tied by trace acceptance of the real TCPServer's label lists (both workers, virtual time, taps on h11/h2/wsproto and on the queues), by monitors on the implementation's observations, and by guards regenerated from the AST",
-    "level_text": "Proved for every configuration and every operation sequence: at most one disconnect is ever handed to an application instance and nothing after it (stated on the message lists: the disconnect occurs only as the last element, what the application received is a FIFO prefix); the disconnect is handed over in the same atomic action that closes the stream, whatever the queue's fill state; when the handler finishes every instance has exactly one; a closed WebSocket accepts every message as a no-op, a closed HTTP stream accepts every state-valid message (HTTP/1: unless h11 itself refuses - sampled); an HTTP request never has more than one access record and has exactly one once its stream is closed or its response ended, hence exactly one at handler completion.  Tie: generated histories x both workers replayed by the model's acceptor (close / completion instants, per-instance received and handed-over message lists, access counts, blocked tasks compared), monitors on the implementation alone, extractor for the closed-flag guards.",
+    "level_text": "Proved for every configuration and every operation sequence: at most one disconnect is ever handed to an application instance and nothing after it (stated on the message lists: the disconnect occurs only as the last element, what the application received is a FIFO prefix); the disconnect is handed over in the same atomic action that closes the stream, whatever the queue's fill state; when the handler finishes every instance has exactly one; protocol.handle(Closed) is, from any state and for any reporter (failed write, reader's end, idle timer), the program that tells every stream registered at that moment - also on a connection already marked closed (HTTP/2 registers streams on a closed connection), and telling an open stream hands over its disconnect; a closed WebSocket accepts every message as a no-op, a closed HTTP stream accepts every state-valid message (HTTP/1: unless h11 itself refuses - sampled); an HTTP request never has more than one access record and has exactly one once its stream is closed or its response ended, hence exactly one at handler completion.  Tie: generated histories x both workers replayed by the model's acceptor (close / completion instants, per-instance received and handed-over message lists, access counts, blocked tasks compared), monitors on the implementation alone, extractor for the closed-flag guards.",
     "level_note": "Trusted: Lean kernel; the model HC/Conn/Server.lean (payload-abstracted; tied by trace acceptance only); the atomicity assumption (a task suspends only in app_put on a full queue); h11/h2/wsproto (events are inputs); asyncio/trio scheduling; the harness's transports, taps and monitors.  Model guards that mirror code structure rather than a literal test (noted in design_notes/C03.md) are validated by the acceptance of every run.",
     "rule": "family x close source x phase at close x application behaviour x queue capacity x worker; distinct = (family, app kinds, closer, where, cap, T); non-trivial = a close raced with a live instance (a disconnect was handed over while the application had not finished)",
     "trusted": ["taps on asyncio.Queue / trio memory channels as the record of what was handed to an application"],
     "partial": ["access_once for WebSocket requests is judged by the monitor and the differential only (F41 known: no record when the client leaves during the handshake)",
                 "exactly-once at completion uses 'no stream registered when the handler exits', validated on every trace rather than proved",
-                "F08 (known): disconnect put blocks for ever on a full queue whose application has gone"],
+                "F08 (known): disconnect put blocks for ever on a full queue whose application has gone",
+                "'exactly one disconnect at the end of the connection' is a monitor judgement (>= 1 s after the server read EOF / reset or closed the transport); the model proves it at handler completion and per report of Closed"],
     "assumptions": ["'sent exactly one disconnect' is judged on what is handed to the application queue; an application that stops receiving cannot observe it",
                     "a stream-valid send after closure must return normally; whether bytes still reach a half-closed client is not part of the statement"],
 }
@@ -31,6 +32,12 @@ SPEC = {
 def monitor(ctx: Ctx, case: dict, sc: dict, an: dict) -> None:
     done = an["done_at"] is not None
     raced = False
+    # the connection is over (the server has read the end of the client's stream / a reset, or has closed the transport) and
+    # the observation went on for seconds of virtual time after it: every instance must have been sent its disconnect by now
+    ends = [t for t in (an["closed_at"], an["read_gone_at"]) if t is not None]
+    over = min(ends) if ends else None
+    blocked = [p[1] for p in an["blocked_puts"]]
+    blocked_put = "disconnect" if "disconnect" in blocked else ("data" if blocked else None)
     for x in an["instances"].values():
         sig = {"kind": x["kind"], "proto": sc["proto"]}
         types = [p[2] for p in x["puts"]]
@@ -47,6 +54,10 @@ def monitor(ctx: Ctx, case: dict, sc: dict, an: dict) -> None:
                 raced = True
             if done and nd != 1:
                 ctx.violation("disconnect_exactly_once", case, {"inst": x["i"], "puts": types, "done_at": an["done_at"]}, {**sig, "count": nd})
+            elif not done and over is not None and nd == 0 and an["end"] - over >= 1000:
+                ctx.violation("disconnect_exactly_once", case, {"inst": x["i"], "puts": types, "connection_over_at": over, "observed_until": an["end"], "done_at": None,
+                                                                "received": [r[1] for r in x["recv"]], "app_exit": x["exit"]},
+                              {**sig, "count": 0, "at": "connection_end", "blocked_put": blocked_put})
             # sends after the disconnect was received: state-valid by construction of the scripts
             got = next((r[0] for r in x["recv"] if r[1] == "disconnect"), None)
             if got is not None:
@@ -107,6 +118,11 @@ def run(ctx: Ctx) -> None:
     for c in wf:
         ctx.count("write_fault", c["key"][0])
     K.run_cases(ctx, wf, monitor)
+    # … HTTP/2: Closed reported twice (failed write, then the reader's end) with streams opened in between
+    ct = K.closed_twice_corpus()
+    for c in ct:
+        ctx.count("closed_twice", c["key"][-1] if c["key"][-1] in ("alpn", "prior") else "alpn")
+    K.run_cases(ctx, ct, monitor)
     K.run_cases(ctx, g, monitor)
     K.run_cases(ctx, gen(ctx, ctx.budget(300, 9000)), monitor)
 
